@@ -92,7 +92,7 @@ end qelib
 
 section refsem
 variable {R : Type} [Add R] [Sub R] [Mul R] [Neg R] [Zero R] [One R] [Div R] [Consts R]
-  [LE R] [DecidableLE R] [HasSqrt R] [RegConsts R] [ExprFns R] [AngleFns R]
+  [LE R] [DecidableLE R] [LT R] [DecidableLT R] [HasSqrt R] [RegConsts R] [ExprFns R] [AngleFns R]
 
 /-- declared registers: name, offset of its first bit, size -/
 structure Decl where
@@ -190,7 +190,7 @@ end refsem
 
 section run
 variable {R : Type} [Add R] [Sub R] [Mul R] [Neg R] [Zero R] [One R] [Div R] [Consts R]
-  [LE R] [DecidableLE R] [HasSqrt R] [RegConsts R] [ExprFns R] [AngleFns R]
+  [LE R] [DecidableLE R] [LT R] [DecidableLT R] [HasSqrt R] [RegConsts R] [ExprFns R] [AngleFns R]
 
 /-- Run a whole program from |0…0>: the registers are sized by the declarations (all of
 them, wherever they stand: the interpreter sizes the registers before it runs anything). -/
